@@ -67,7 +67,8 @@ def decorated(sh, salt, sid):
     n = len(model.leaves(sh))
     edges = ['HD', 'NK', 'SB', 'OA']
     labels = ['S', 'NP', 'VP', 'PP', 'AP']
-    words = ['a', 'b,', '&c', '<d>', 'e"', "f'", 'gä', 'h#', '#', 'Donaudampfschifffahrtsgesellschaft', '#1']
+    words = ['a', 'b,', '&c', '<d>', 'e"', "f'", 'gä', 'h#', '#', 'Donaudampfschifffahrtsgesellschaft', '#1',
+             '&amp;', 'cafe\u0301', '\u212b', '%', '&#8217;']
     root = model.decorate(sh, lambda p, s: labels[(sum(p) + len(p) + salt) % len(labels)],
                           lambda p, s: edges[(sum(p) + salt) % len(edges)])
     toks = model.mk_tokens(n, words=[words[(salt + i) % len(words)] + str(i) for i in range(n)],
@@ -250,7 +251,7 @@ def check_chain(mtjs, fmts, dev=None):
     if dev.get('src_layout'):
         lay = dict(dev['src_layout'])
         text = (codecs.encode_export(mts, version=3 if fmts[0] == 'export3' else 4, **lay) if fmts[0].startswith('export')
-                else codecs.encode_brackets(mts, **lay))
+                else codecs.encode_tigerxml(mts, **lay) if fmts[0] == 'tigerxml' else codecs.encode_brackets(mts, **lay))
     if fmts[0] == 'tigerxml' and src_enc:
         text = codecs.encode_tigerxml(mts, encoding=src_enc)
     path = os.path.join(d, 'f0.' + EXT[fmts[0]])
@@ -355,8 +356,10 @@ def check_directory(mtjs_a, mtjs_b, src, dest):
     d = workdir()
     sd = os.path.join(d, 'src[v2] dir')        # a name with glob metacharacters and a blank
     os.makedirs(sd)
-    names = ('part.0', 'part.1')       # as `transform --split` names its parts: the same stem, different extensions
-    for name, mts in zip(names, (a, b)):
+    # as `transform --split` names its parts (the same stem, different extensions), and a source file whose name
+    # ends in .dest (the output of an earlier directory run, moved here)
+    names = ('part.0', 'part.1', 'old.dest')
+    for name, mts in zip(names, (a, b, a)):
         with open(os.path.join(sd, name), 'w', encoding='utf-8') as f:
             f.write(encode(mts, src))
     (st, so, se, exc), argv = convert(sd, src, os.path.join(d, 'ignored'), dest)
@@ -365,7 +368,7 @@ def check_directory(mtjs_a, mtjs_b, src, dest):
         return out
     if sorted(os.listdir(sd)) != sorted(names + tuple(n + '.dest' for n in names)):
         bad('directory-files', 'the source directory now holds %r' % sorted(os.listdir(sd)))
-    for name, mts in zip(names, (a, b)):
+    for name, mts in zip(names, (a, b, a)):
         dp = os.path.join(sd, name + '.dest')
         if not os.path.exists(dp):
             bad('missing-output', '%s.dest was not written (files: %r)' % (name, sorted(os.listdir(sd))))
@@ -384,10 +387,11 @@ def check_directory(mtjs_a, mtjs_b, src, dest):
         if st != 0:
             bad('cli-failed', 'second run over the directory: exit status %r %s' % (st, cli.describe(exc)))
             return out
-        for name, mts in zip(names, (a, b)):
-            for fn in (name + '.dest', name + '.dest.dest'):
+        for name, mts in zip(names, (a, b, a)):
+            for second, fn in enumerate((name + '.dest', name + '.dest.dest')):
                 try:
-                    carried = CARRY[src] & CARRY[dest] & CARRY[other] if fn.endswith('.dest.dest') else CARRY[src] & CARRY[other]
+                    # X.dest is made from the source X again; X.dest.dest from the X.dest of the first run
+                    carried = CARRY[src] & CARRY[dest] & CARRY[other] if second else CARRY[src] & CARRY[other]
                     for x in compare(project(mts, carried, False), decode_file(os.path.join(sd, fn), other), other, fn + ' after the second run'):
                         bad('content', x)
                 except (codecs.DecodeError, IOError) as e:
@@ -701,6 +705,8 @@ def run_chunk(chunk):
                 devs.append((P[:3], ['export4', dest], {'src_layout': {'secedges': True}}))
             for dest in ('brackets', 'discobrackets', 'export3'):
                 devs.append((Pc[:3], ['brackets', dest], {'src_layout': {'empty_root': True}, 'dest_opts': ['gf']}))
+            for dest in DEST:       # TIGER-XML as distributed: secondary edges, head section, ids like s1_7
+                devs.append((P[:3], ['tigerxml', dest], {'src_layout': {'secedges': True, 'head': True, 'id_style': 'under'}}))
             devs.append((P, ['export3', 'brackets'], {'dest_opts': ['brackets_skipdisco']}))
             devs.append((P, ['tigerxml', 'brackets'], {'dest_opts': ['brackets_skipdisco']}))
             for corp, fmts, dev in devs:
